@@ -48,3 +48,17 @@ func init() {
 		mutant{"props-validated-after-journal", "pkg/engine/graph.go", "\tif err := e.AOF.Write(cmd); err != nil {\n\t\treturn err\n\t}\n\n\t// 2. In-Memory Update (Blazing fast O(1))", "\tif err := e.AOF.Write(cmd); err != nil {\n\t\treturn err\n\t}\n\tif err := validateProps(props); err != nil {\n\t\treturn err\n\t}\n\n\t// 2. In-Memory Update (Blazing fast O(1))", "JRN-3", "Engine.VLink:error-after-journal:validateProps"},
 	)
 }
+
+func init() {
+	addMutants("C06",
+		mutant{"entrypoint-deleted-check-dropped", "pkg/core/hnsw/hnsw_index.go", "if isEpValid && !entryNode.Deleted.Load() {", "if isEpValid {", "GRD-admit", "push#1:not-deleted"},
+		mutant{"neighbour-deleted-check-dropped", "pkg/core/hnsw/hnsw_index.go", "\t\t\t\tif !neighborNode.Deleted.Load() {\n\t\t\t\t\tresults.Push(neighborCandidate)", "\t\t\t\tif neighborNode != nil {\n\t\t\t\t\tresults.Push(neighborCandidate)", "GRD-admit", "push#2:not-deleted"},
+		mutant{"allow-list-only-steers-traversal", "pkg/core/hnsw/hnsw_index.go", "\t\t\t\tif !allowList.Contains(neighborID) {\n\t\t\t\t\tcontinue\n\t\t\t\t}", "\t\t\t\t_ = allowList.Contains(neighborID)", "GRD-admit", "push#2:allow-listed"},
+		mutant{"scope-united-with-filter", "pkg/engine/ops.go", "allowList.And(graphAllowList)", "allowList.Or(graphAllowList)", "GRD-scope", "intersect"},
+		mutant{"truncate-before-sort", "pkg/engine/ops.go", "\tsort.Slice(finalRes, func(i, j int) bool {\n\t\treturn finalRes[i].score > finalRes[j].score\n\t})\n\n\tif len(finalRes) > k {\n\t\tfinalRes = finalRes[:k]\n\t}\n", "\tif len(finalRes) > k {\n\t\tfinalRes = finalRes[:k]\n\t}\n\tsort.Slice(finalRes, func(i, j int) bool {\n\t\treturn finalRes[i].score > finalRes[j].score\n\t})\n", "GRD-order", "sort<truncate"},
+		mutant{"ascending-sort", "pkg/engine/ops.go", "return finalRes[i].score > finalRes[j].score", "return finalRes[i].score < finalRes[j].score", "GRD-order", "descending"},
+		mutant{"empty-scope-check-only-when-both", "pkg/engine/ops.go", "\t\t\tallowList.And(graphAllowList)\n\t\t}\n\n\t\t// If intersection resulted in empty set, return immediately\n\t\tif allowList != nil && allowList.IsEmpty() {\n\t\t\treturn []fusedResult{}, nil\n\t\t}\n", "\t\t\tallowList.And(graphAllowList)\n\t\t\tif allowList.IsEmpty() {\n\t\t\t\treturn []fusedResult{}, nil\n\t\t\t}\n\t\t}\n", "GRD-scope", "empty-check-after:Engine.resolveGraphFilter"},
+		mutant{"k-cap-dropped", "pkg/engine/ops.go", "\tif len(finalRes) > k {\n\t\tfinalRes = finalRes[:k]\n\t}\n\n\treturn finalRes, nil\n\n}", "\treturn finalRes, nil\n\n}", "GRD-cap", "searchWithFusion"},
+		mutant{"found-flag-ignored", "pkg/engine/ops.go", "\t\textID, found := hnswIndex.GetExternalID(id)\n\t\tif !found {\n\t\t\tcontinue\n\t\t}\n\t\tfinalRes = append", "\t\textID, _ := hnswIndex.GetExternalID(id)\n\t\tfinalRes = append", "GRD-xlate", "fused-translate"},
+	)
+}
